@@ -126,6 +126,42 @@ def run(rep, tier, seed, rng):
         if allb != fullset:
             rep.violation("partitions count:1..%d/%d are not a disjoint cover of the unpartitioned set: %s vs %s" % (n, n, allb, fullset),
                           gen_common.replay_data(full[i], partitions=parts), found_input=True)
+    # --- hash: partitions (the shard of a build is a hash of "<builder><app>", fixed seed): implementation only —
+    # the shards are disjoint, cover the unpartitioned set, and every build's statements equal those of the full run
+    # (C10_hash_cover states the cover for ANY shard assignment)
+    hjobs = []
+    for i in [i for i in range(len(full)) if full[i]["impl"]["rc"] == 0 and len(full[i]["impl"]["builds"]) >= 2][:(16 if tier == "quick" else 160)]:
+        for n in (2, 3):
+            for k in range(1, n + 1): hjobs.append((i, n, k))
+    def hone(j):
+        i, n, k = j
+        return j, e2e.run_laze(laze, base[i][0], base[i][1], extra_args=["--partition", "hash:%d/%d" % (k, n)])
+    from concurrent.futures import ThreadPoolExecutor as _TPE
+    with _TPE(core.NCPU) as ex:
+        houts = list(ex.map(hone, hjobs))
+    hshards = {}; nhash = 0
+    for (i, n, k), r in houts:
+        nhash += 1
+        fr = full[i]
+        if r["rc"] != 0 or r["ninja"] is None or r["info"] is None:
+            rep.violation("a hash: partition of a project that generates fails: rc=%s" % r["rc"], dict(files=base[i][0], cli=base[i][1], partition="hash:%d/%d" % (k, n)), found_input=True); continue
+        got = e2e.parse_impl(r)["builds"]
+        hshards.setdefault((i, n), {})[k] = sorted((b["builder"], b["app"]) for b in got)
+        pf = ninja_parse.parse(fr["impl_raw"]["ninja"].decode("utf-8", "replace")); ps = ninja_parse.parse(r["ninja"].decode("utf-8", "replace"))
+        from .. import manifest_checks as mc
+        if any(u for _, _, u in mc.wf_manifest(pf, [])): continue
+        for b in got:
+            if closure(pf, b["out"]) != closure(ps, b["out"]):
+                rep.violation("statements reachable from %s differ between the full run and --partition hash:%d/%d" % (b["out"], k, n),
+                              dict(files=base[i][0], cli=base[i][1], partition="hash:%d/%d" % (k, n)), found_input=True)
+    for (i, n), parts in hshards.items():
+        if len(parts) != n: continue
+        allb = sorted(x for p in parts.values() for x in p)
+        fullset = sorted((b["builder"], b["app"]) for b in full[i]["impl"]["builds"])
+        if len(fullset) == len(set(fullset)) and allb != fullset:
+            rep.violation("partitions hash:1..%d/%d are not a disjoint cover of the unpartitioned set: %s vs %s" % (n, n, allb, fullset),
+                          dict(files=base[i][0], cli=base[i][1], partitions=parts), found_input=True)
+    rep.cov.update(hash_partition_runs=nhash)
     # --- the same selections issued one after the other in ONE build directory (cache in play):
     # every step must leave the file a fresh directory gets for that command line
     fresh = {}
@@ -161,4 +197,4 @@ def run(rep, tier, seed, rng):
                         "per configured build the closure of statements reachable from its output is compared between runs; shards are checked to be a disjoint cover; "
                         "every run is also compared byte-for-byte with the model; non-trivial = a sub-selection run of a project with >=1 configured build",
                    samples=[dict(cli=cases[0][1]) if cases else {}], builds_compared=nchecked, disagreements=ndis, runs_skipped_for_K06_collisions=skipped_k06)
-    rep.assumptions.append("hash: partitions are not exercised (the hash seed is per process); hash: is covered by theorem C10_hash_cover for any shard assignment")
+    rep.assumptions.append("hash: partitions are exercised on the implementation alone (xxhash of the pair name is not modelled); the cover is theorem C10_hash_cover for any shard assignment")
